@@ -303,8 +303,10 @@ def g_json(v, cands=()):
 
 
 def g_config(cfg):
-    op = cfg.get("default_operator", "should")
-    gop = {"should": "DShould", "must": "DMust"}.get(op, "DOtherOp")
+    from luqum.elasticsearch import ElasticsearchQueryBuilder as B
+    # default_operator is compared with == against the class constants MUST / SHOULD (default: SHOULD)
+    op = cfg.get("default_operator", B.SHOULD)
+    gop = "DShould" if op == B.SHOULD else ("DMust" if op == B.MUST else "DOtherOp")
     fo = cfg.get("field_options") or {}
     gfo = lib.g_list(["(%s, %s)" % (lib.g_str(f), lib.g_list(
         ["(%s, %s)" % (lib.g_str(k), g_json(v)) for k, v in o.items()])) for f, o in fo.items()])
